@@ -49,7 +49,9 @@ def arm_ops(arms, labels, removed):
 
 
 def warm_op(arms):
-    feats = [[a, [1, (i * 2) % 3, i % 2]] for i, a in enumerate(arms)]
+    # the first two arms share one feature vector: every other arm is equally far from both, so that the choice of
+    # the source arm exercises the tie-break (which must not depend on anything a query leaves behind)
+    feats = [[a, [1, 0, 0] if i < 2 else [1, (i * 2) % 3, i % 2]] for i, a in enumerate(arms)]
     return ["warm_start", feats, 1.0]
 
 
